@@ -10,7 +10,7 @@ LEVEL = "proof"
 PROPS = "Trace/Props_C05.v"
 COQ_FILES = ["Trace/Model.v", "Trace/Proofs.v", "Trace/Props_C05.v"]
 THEOREMS = ["origin_correct", "origin_unique", "walk_eq_origin", "trace_one_eq_origin", "trace_eq_origin_on_D",
-            "view_of_regular_location", "symlinked_location_refuted", "sorted_locations_refuted",
+            "view_of_regular_location", "symlinked_location_refuted",
             "readded_attributed_to_readder", "untouched_layers_irrelevant", "align_history"]
 CORR = ("Scanner.ScanContainer -> trace.PopulateLayerDetails (Go) on real images vs Trace.Model.trace_all / align "
         "(Coq, vm_compute)")
@@ -23,9 +23,9 @@ META = {
                   "L..last (origin_correct: the declarative, minimal value) whenever skipping is sound (skip_sound) and no "
                   "extraction cancels the context. trace_eq_origin_on_D instantiates it for images: any number of layers and "
                   "files, write / delete / untouched / empty layers, several packages per file, the same key in several "
-                  "files, packages with several locations, any processing order, shared cache -- on the domain D (first "
-                  "reported location = source file, never a symlink). Outside D the statement is refuted twice "
-                  "(symlinked_location_refuted, sorted_locations_refuted: two known findings). Corollaries: re-added "
+                  "files, packages with several locations, any processing order, shared cache -- on the domain D (the "
+                  "package's first location is never a symlink). Outside D the statement is refuted "
+                  "(symlinked_location_refuted: known finding; the sorted-locations finding is fixed, 57324273). Corollaries: re-added "
                   "packages go to the re-adder, untouched/empty layers only shift indices, history alignment. Tied to the "
                   "code on every run by the real ScanContainer on generated images (exhaustive small histories, random "
                   "histories, multi-location, symlinked-location (ReadSymlinks) and context-cancelling streams).",
@@ -242,6 +242,24 @@ def run(ctx):
                                     "extractor errors do not take that path (partial results are used); LayerDetails.InBaseImage "
                                     "is always false (trace.go never consults Image.BaseImageIndex); nothing is reported through a "
                                     "symlinked directory (the image FS does not resolve intermediate links)")
+    import glob
+    fixed = []
+    for fpath in sorted(glob.glob(os.path.join(vlib.VERIF, "KNOWN_FINDINGS.d", "*.json"))):
+        k = json.load(open(fpath))
+        fixed += [e for e in (k if isinstance(k, list) else k.get("findings", []))
+                  if e.get("property") == "C05" and e.get("status") == "fixed" and e.get("witness")]
+    for kf in fixed:
+        impl, cout, flags = _replay_eval(ctx, binp, kf["witness"], "C05_fixed_" + "".join(ch if ch.isalnum() else "_" for ch in kf["id"]))
+        if flags is None:
+            raise RuntimeError("fixed finding replay failed: " + cout[-1500:])
+        if not (flags[1] and flags[2]):
+            ctx.violation({"kind": "spec-failure", "regression_of": kf["id"], "fix_commit": kf.get("fix_commit"),
+                           "case": kf["witness"], "implementation": impl,
+                           "explanation": "the witness of a fixed finding violates the property again"})
+        elif not flags[0]:
+            ctx.violation({"kind": "correspondence-broken", "regression_of": kf["id"], "first_mismatch": kf["witness"],
+                           "correspondence": CORR, "theorems_no_longer_tied_to_code": THEOREMS}, nofail=True)
+    ctx.coverage["fixed_findings_regression_replayed"] = [e["id"] for e in fixed]
     for kf in ctx.known_findings():
         impl, cout, flags = _replay_eval(ctx, binp, kf["witness"], "C05_known_" + "".join(ch if ch.isalnum() else "_" for ch in kf["id"]))
         if flags is None:
